@@ -48,3 +48,11 @@ Definition srv_exec (s : server) (conn : Z) (now nowms : Z) (args : list bytes) 
         (r, mkSrv (list_update (sdbs s) i d') (ssel s))
       end
   end.
+
+(* a connection ends: the server forgets what it had selected (server.Manager.Handle returns and
+   its per-connection view is dropped); a later connection -- under a new id or the same one --
+   starts from the default, database 0 *)
+Definition sel_forget (c : Z) (l : list (Z * nat)) : list (Z * nat) :=
+  filter (fun p => negb (c =? fst p)) l.
+Definition srv_disconnect (s : server) (conn : Z) : server :=
+  mkSrv (sdbs s) (sel_forget conn (ssel s)).
